@@ -28,9 +28,7 @@ class Box(object):
             from playback.tape_cassettes.in_memory.in_memory_tape_cassette import InMemoryTapeCassette
             if first:
                 return InMemoryTapeCassette()
-            c = InMemoryTapeCassette()   # a fresh object over the same stored strings
-            c._recordings = self.cassette._recordings
-            return c
+            return self.cassette   # an in-memory store lives in its cassette object: there is no other view of it
         if self.kind == 'file':
             from playback.tape_cassettes.file_based.file_based_tape_cassette import FileBasedTapeCassette
             return FileBasedTapeCassette(self.dir)
